@@ -33,6 +33,7 @@ var profiles = map[string]profile{
 	"C02": {prop: "C02", replicas: [2]int{1, 1}, steps: [2]int{8, 36}, txnHeavy: true},
 	"C03": {prop: "C03", replicas: [2]int{2, 4}, steps: [2]int{12, 44}, snapshots: true, restarts: true, crashes: true, li: true, knobs: true},
 	"C04": {prop: "C04", replicas: [2]int{1, 2}, steps: [2]int{6, 30}, snapshots: true, restarts: true, crashes: true, harvest: true, li: true, knobs: true},
+	"C05": {prop: "C05", replicas: [2]int{1, 1}, steps: [2]int{6, 24}, snapread: true, li: true},
 	"C07": {prop: "C07", replicas: [2]int{1, 1}, steps: [2]int{6, 24}, snapread: true},
 	"C08": {prop: "C08", replicas: [2]int{2, 3}, steps: [2]int{10, 36}, snapshots: true, li: true, iters: true, knobs: true},
 	"C09": {prop: "C09", replicas: [2]int{1, 1}, steps: [2]int{8, 36}, rangeHeavy: true, iters: true},
